@@ -105,3 +105,26 @@ Proof.
     rewrite <- Ev. split; [assumption|]. split; [assumption|].
     intros lam Hl Hle. rewrite Hu. apply exponential_max; try assumption. lra.
 Qed.
+
+(* ---------------- log-scale accumulation (LogAdd) computes linear sums over R ---------------- *)
+Definition LOG1P_R (x : R) : R := ln (1 + x).
+Definition lexpR (a : option R) : R := match a with None => 0 | Some x => exp x end.
+
+Lemma logadd_R a b : lexpR (logadd NumR exp LOG1P_R a b) = lexpR a + lexpR b.
+Proof.
+  assert (core : forall x y, exp (y + LOG1P_R (exp (x - y))) = exp x + exp y).
+  { intros x y. unfold LOG1P_R. rewrite exp_plus, exp_ln.
+    - unfold Rminus. rewrite exp_plus, exp_Ropp. field. apply Rgt_not_eq, exp_pos.
+    - pose proof (exp_pos (x - y)). lra. }
+  unfold logadd. destruct a as [x|], b as [y|]; simpl.
+  - destruct (Rltb y x); simpl; rewrite core; lra.
+  - lra.
+  - lra.
+  - lra.
+Qed.
+
+Lemma logsum_R ts acc :
+  lexpR (fold_left (logadd NumR exp LOG1P_R) ts acc) = lexpR acc + fold_right (fun t s => lexpR t + s) 0 ts.
+Proof.
+  revert acc. induction ts as [|t r IH]; intros acc; simpl; [lra|]. rewrite IH, logadd_R. lra.
+Qed.
